@@ -2,6 +2,7 @@
 # tools/trymutant.sh <mutant-dir> <worktree> "<demo place path>" "<demo run cmd (run inside worktree)>" <check ids...>
 # 1. confirms the mutant in the scratch worktree: compiles, suite passes, demo fails with / passes without;
 # 2. applies it to /repo, runs the given checks (quick), undoes it.
+export VERIF_NO_EVIDENCE=1
 export GOFLAGS=-mod=mod GOPROXY=off GOSUMDB=off GOTOOLCHAIN=local
 M="$1"; WT="$2"; PLACE="$3"; RUN="$4"; shift 4
 DEMO=$(ls "$M"/demo_test.go "$M"/demo/main.go 2>/dev/null | head -1)
